@@ -31,6 +31,7 @@ type c04Job struct {
 	Op   int    // index into mutants(T)
 	Name string // operator name (for the record; the index decides)
 	Path string // "check" or "deliver"
+	Sig  string `json:",omitempty"` // "" = signed plainly; "prehash" = the original is signed in hardware-wallet mode (hash tag + signature over the digest)
 }
 
 type c04Res struct {
@@ -368,6 +369,26 @@ func mutants(t *harness.TxSpec, w *harness.World) []mutant {
 			}
 		})
 		add(fmt.Sprintf("sig[%d]:empty", i), func(c *action.SignedTx) { c.Signatures[i].Signed = nil })
+		// signature bytes with something added: the field must BE a signature, not merely contain one
+		add(fmt.Sprintf("sig[%d]:one-byte-appended", i), func(c *action.SignedTx) { c.Signatures[i].Signed = append(c.Signatures[i].Signed, 0) })
+		add(fmt.Sprintf("sig[%d]:two-bytes-appended", i), func(c *action.SignedTx) { c.Signatures[i].Signed = append(c.Signatures[i].Signed, 0x90, 0) })
+		add(fmt.Sprintf("sig[%d]:one-byte-prepended", i), func(c *action.SignedTx) {
+			c.Signatures[i].Signed = append([]byte{0}, c.Signatures[i].Signed...)
+		})
+		add(fmt.Sprintf("sig[%d]:hash-tag-prepended", i), func(c *action.SignedTx) {
+			c.Signatures[i].Signed = append([]byte(keys.SHA256), c.Signatures[i].Signed...)
+		})
+		add(fmt.Sprintf("sig[%d]:hash-tag-replaced-or-stripped", i), func(c *action.SignedTx) {
+			// a hardware-wallet signature names the digest it was made over: another tag (same signature bytes),
+			// or for a plain signature its first six bytes overwritten by a tag
+			if sg := c.Signatures[i].Signed; len(sg) >= keys.TAGLEN {
+				if string(sg[:keys.TAGLEN]) == keys.SHA256 {
+					copy(sg, keys.SHA512)
+				} else {
+					copy(sg, keys.SHA256)
+				}
+			}
+		})
 		add(fmt.Sprintf("sig[%d]:other-message", i), func(c *action.SignedTx) {
 			if i < len(t.Signers) {
 				c.Signatures[i].Signed = t.Signers[i].Sign(append(append([]byte(nil), rawMsg...), 'x'))
@@ -458,8 +479,8 @@ func mutants(t *harness.TxSpec, w *harness.World) []mutant {
 // bitflips (thorough): one bit flipped at every byte position of the wire form.
 func bitflipCount(t *harness.TxSpec) int { return len(t.Bytes()) }
 
-func c04Payload(h *hist, op int) (name string, wire []byte, orig []byte, err error) {
-	t := h.Blocks[h.Target].Txs[0]
+func c04Payload(h *hist, op int, sigMode string) (name string, wire []byte, orig []byte, err error) {
+	t := withSigMode(h.Blocks[h.Target].Txs[0], sigMode)
 	orig = t.Bytes()
 	ms := mutants(t, h.W)
 	if op < len(ms) {
@@ -493,7 +514,7 @@ func c04Exec(j c04Job) c04Res {
 	if err != nil {
 		return c04Res{Err: err.Error()}
 	}
-	_, wire, orig, err := c04Payload(h, j.Op)
+	_, wire, orig, err := c04Payload(h, j.Op, j.Sig)
 	if err != nil {
 		return c04Res{Err: err.Error()}
 	}
@@ -619,6 +640,7 @@ func c04(args []string) int {
 	var jobList []c04Job
 	kinds := map[string]bool{}
 	opsPerKind := map[string]int{}
+	prehashOps := map[string]int{}
 	for _, sc := range catalogue.All() {
 		if !keep(sc.ID()) {
 			continue
@@ -647,6 +669,17 @@ func c04(args []string) int {
 			}
 			jobList = append(jobList, c04Job{Scn: sc.ID(), Op: op, Name: name, Path: "check"}, c04Job{Scn: sc.ID(), Op: op, Name: name, Path: "deliver"})
 		}
+		// the same signature operators on an original signed in the hardware-wallet mode the ED25519 key handler
+		// accepts (hash tag + signature over the digest): another code path of the signature check
+		if t.SignFn == nil && len(t.Signers) > 0 && t.Signers[0].Pub.KeyType == keys.ED25519 {
+			pm := mutants(withSigMode(t, "prehash"), h.W)
+			for op := range pm {
+				if strings.HasPrefix(pm[op].name, "sig") {
+					prehashOps[sc.Kind]++
+					jobList = append(jobList, c04Job{Scn: sc.ID(), Op: op, Name: pm[op].name, Path: "check", Sig: "prehash"}, c04Job{Scn: sc.ID(), Op: op, Name: pm[op].name, Path: "deliver", Sig: "prehash"})
+				}
+			}
+		}
 	}
 	jobs := make([]interface{}, len(jobList))
 	for i := range jobList {
@@ -656,6 +689,12 @@ func c04(args []string) int {
 	var errSamples []string
 	payloadReasons := map[string]map[string]int{}
 	distinct := map[string]bool{}
+	sigTag := func(j c04Job) string {
+		if j.Sig != "" {
+			return "|signed=" + j.Sig
+		}
+		return ""
+	}
 	opClass := func(name string) string {
 		// operator class for signatures: strip concrete positions
 		if len(name) > 12 && name[:12] == "wire-bitflip" {
@@ -683,15 +722,15 @@ func c04(args []string) int {
 			skippedMut++
 			return
 		}
-		distinct[j.Scn+"|"+j.Name+"|"+j.Path] = true
+		distinct[j.Scn+"|"+j.Name+"|"+j.Path+"|"+j.Sig] = true
 		if j.Op%17 == 0 && j.Path == "check" {
 			rep.Sample(map[string]interface{}{"scenario": j.Scn, "operator": j.Name, "path": j.Path, "code": r.Code, "log": r.Log})
 		}
 		if j.Path == "check" {
 			if r.Effect != "" {
-				rep.Violation(fmt.Sprintf("C04|checktx-panics|kind=%s|op=%s", sc.Kind, opClass(j.Name)), fmt.Sprintf("CheckTx of mutant %q of a valid %s: %s", j.Name, sc.Kind, r.Effect), j)
+				rep.Violation(fmt.Sprintf("C04|checktx-panics|kind=%s|op=%s", sc.Kind, opClass(j.Name))+sigTag(j), fmt.Sprintf("CheckTx of mutant %q of a valid %s: %s", j.Name, sc.Kind, r.Effect), j)
 			} else if r.Accepted {
-				rep.Violation(fmt.Sprintf("C04|checktx-accepts-mutant|kind=%s|op=%s", sc.Kind, opClass(j.Name)), fmt.Sprintf("CheckTx returned code 0 for mutant %q of a valid %s", j.Name, sc.Kind), j)
+				rep.Violation(fmt.Sprintf("C04|checktx-accepts-mutant|kind=%s|op=%s", sc.Kind, opClass(j.Name))+sigTag(j), fmt.Sprintf("CheckTx returned code 0 for mutant %q of a valid %s", j.Name, sc.Kind), j)
 			} else {
 				rejected++
 				// reachability diagnostic: WHY the mempool check refused the payload mutants of each kind (an operator
@@ -713,7 +752,7 @@ func c04(args []string) int {
 			return
 		}
 		if r.Effect != "" {
-			rep.Violation(fmt.Sprintf("C04|delivered-mutant-has-effect|kind=%s|op=%s|field=%s", sc.Kind, opClass(j.Name), r.Field), fmt.Sprintf("mutant %q of a valid %s delivered in a block (code %d): %s", j.Name, sc.Kind, r.Code, r.Effect), j)
+			rep.Violation(fmt.Sprintf("C04|delivered-mutant-has-effect|kind=%s|op=%s|field=%s", sc.Kind, opClass(j.Name), r.Field)+sigTag(j), fmt.Sprintf("mutant %q of a valid %s delivered in a block (code %d): %s", j.Name, sc.Kind, r.Code, r.Effect), j)
 		} else {
 			rejected++
 		}
@@ -728,6 +767,7 @@ func c04(args []string) int {
 	rep.Set("rule", "one evaluation = one mutant of a valid signed transaction (operator list enumerated completely per kind) sent to CheckTx, or delivered in a block and compared (state digest, app hash, validator updates for this and the next 2 blocks) with the twin run without it; non-trivial = the mutant differs from the original in its parsed content (mutants that only re-encode are skipped and counted)")
 	rep.Set("kinds", kl)
 	rep.Set("operators_per_kind", opsPerKind)
+	rep.Set("signature_operators_on_prehash_signed_originals_per_kind", prehashOps)
 	rep.Set("mutants_without_effect_or_rejected", rejected)
 	rep.Set("mutants_skipped_same_content", skippedMut)
 	rep.Set("payload_mutant_rejection_reasons_per_kind", payloadReasons)
